@@ -218,6 +218,10 @@ class GlassEaselTemplateInstance implements TemplateInstance {
             const inserts = new Array(newVal.length)
             inserts.fill(true)
             arr.splice(spliceIndex, spliceDel, ...inserts)
+            if (spliceDel !== newVal.length) {
+              // the length is changed (`arr.length` itself may be `0` , i.e. falsy)
+              ;(cur[field] as { [key: string]: UpdatePathTreeNode }).length = true
+            }
           }
           break
         }
